@@ -44,6 +44,8 @@ def run(ctx, tier, res, tag=''):
                 res.violation(key + tag, text)
             else:
                 res.undec(text)
+    from .. import promises
+    promises.report(ctx, res, FC.accessor_functions(ctx, 'set'), promises.MEMORY_KINDS, tag)
     generic.run_writer(ctx, tier, res, tag)
     res.rule = ('one obligation per (format, field, write path): the final memory image over a fully symbolic header and a '
                 'fully symbolic value must be value bits (msb first) inside the spec bit range and the entry bits everywhere '
